@@ -295,6 +295,15 @@ class ThrottleScenario(ChangeScenario):
     name = 'c12-throttle'
     prop = 'C12'
 
+    def build_settings(self) -> Any:
+        st = super().build_settings()
+        if self.params.get('delays_as') == 'reiterable':
+            # the documented way to have endless / jittered delays: an object that can be iterated again and again (no len, no index)
+            st.queueing.error_delays = Reiterable(list(self.params['error_delays']))     # type: ignore[assignment]
+        elif self.params.get('delays_as') == 'list':
+            st.queueing.error_delays = list(self.params['error_delays'])
+        return st
+
     def serve_fault(self, env: Env, req: Request) -> str | None:
         if req.method == 'patch' and req.path.endswith('/a') and env.counters.get('a-faults', 0) < self.params['fail_first']:
             env.count('a-faults')
@@ -393,6 +402,11 @@ def throttle_scenarios(tier: str) -> list[ThrottleScenario]:
                 out.append(ThrottleScenario(handlers=handlers, user=user, horizon=70.0, error_delays=list(delays), fail_first=fail_first,
                                             settings={'queueing__error_delays': delays, 'networking__error_backoffs': (),
                                                       'persistence__consistency_timeout': 5.0}))
+                if delays and a_events[0] == 1.25:
+                    for how in ('reiterable', 'list'):
+                        out.append(ThrottleScenario(handlers=handlers, user=user, horizon=70.0, error_delays=list(delays), fail_first=fail_first, delays_as=how,
+                                                    settings={'queueing__error_delays': delays, 'networking__error_backoffs': (),
+                                                              'persistence__consistency_timeout': 5.0}))
                 if delays and fail_first <= 2:
                     # attempts that take a while (0.5 s in the raw-event handler) before their PATCH fails
                     slow_handlers = [dict(h, script=['ok~0.5']) if h['id'] == 'ev' else h for h in handlers]
